@@ -175,6 +175,11 @@ func (d *driver) setup(p rlwe.Parameters, N, t int, pts []uint64, toy bool, maxP
 	for i := range others {
 		others[i] = multiparty.ShamirPublicPoint(pts[i])
 	}
+	// one Combiner per party, reused for every active set and listing (a party keeps its combiner)
+	cmbs := make([]multiparty.Combiner, N)
+	for j := range cmbs {
+		cmbs[j] = multiparty.NewCombiner(p, others[j], others, t)
+	}
 	rqp := p.RingQP()
 	secret := rlwe.NewSecretKey(p)
 	dealers := make([]int, N)
@@ -204,8 +209,7 @@ func (d *driver) setup(p rlwe.Parameters, N, t int, pts []uint64, toy bool, maxP
 			for _, j := range listing {
 				out := rlwe.NewSecretKey(p)
 				err, pan, m := guarded(func() error {
-					cmb := multiparty.NewCombiner(p, others[j], others, t)
-					return cmb.GenAdditiveShare(active, others[j], agg[j], out)
+					return cmbs[j].GenAdditiveShare(active, others[j], agg[j], out)
 				})
 				if toy {
 					d.emit(event{Ev: "combine", Active: actU, X: red(pts[j]), Val: cp(out.Value.Q.Coeffs[0]), Err: err != nil, Panic: pan, Msg: m})
